@@ -1373,6 +1373,48 @@ def shard_scale_probes(col, shard_i):
                        'exception': repr(res[1])[:200]})
 
 
+# end of line: the constructs that look at line ends ($-> skip to the end of the line, $ at the end of the text, patterns with (?m)^ / $,
+# eol comments) on texts whose lines end in every convention - LF, CR, CRLF, LF CR, none - in the middle and at the very END of the text
+# (a lone CR as the last character, a CR before a comment, blank lines of mixed conventions), as str, Buffer and TextLines
+EOL_GRAMMARS = [
+    "start = 'a' $-> 'b' $ ;",
+    "start = 'a' $-> $ ;",
+    "start = {line}+ $ ;\nline = /[a-z]+/ $-> ;",
+    "start = {line}* $ ;\nline = 'a' ['b'] $-> ;",
+    "@@eol_comments :: /#[^\\r\\n]*/\nstart = {'a' $->}+ $ ;",
+    "start = 'a' ->(/x/ $->) $ ;",
+    "@@whitespace :: /[ \\t]+/\nstart = {'a' $->}+ $ ;",
+    "start = /(?m)a$/ $-> {/(?m)^b/}* $ ;",
+]
+EOL_BREAKS = ['\n', '\r', '\r\n', '\n\r', '', ' \r', '\r ', ' \n', '\r\r', '\x0b', '\x0c', '\x85', '\u2028']
+
+
+def shard_eol(col, shard_i):
+    import itertools
+    gtext = EOL_GRAMMARS[shard_i]
+    out = compile_outcome(gtext)
+    col.case(['eol', gtext], nontrivial=True)
+    if out[0] != 'ok':
+        col.violation(f'oracle:eol-grammar-does-not-compile:{shard_i}', 'an end-of-line probe grammar does not compile', {'grammar': gtext, 'outcome': out[0]})
+        return
+    bodies = ['a', 'a b', 'a x', 'ab', 'a # c', 'a a', 'b']
+    for body, b1, b2 in itertools.product(bodies, EOL_BREAKS, EOL_BREAKS[:9]):
+        text = body + b1 + ('b' if shard_i in (0, 7) else 'a') + b2
+        for text_ in (text, body + b1):       # the second one ENDS in the line break
+            for inp in ('text', 'buffer', 'textlines'):
+                res = run_variant(out[1], text_, {'input': inp, 'parse_kw': {}}, 10)
+                col.case(['eol', shard_i, text_, inp], nontrivial=True)
+                col.count('eol.' + res[0])
+                if res[0] == 'tatsu':
+                    check_failure(col, res[1], text_, 'eol', {'grammar': gtext, 'text': text_})
+                elif res[0] != 'ok':
+                    last = {'\n': 'lf', '\r': 'cr'}.get(text_[-1:], 'other')
+                    col.violation(f'oracle:{"hang" if res[0] == "timeout" else res[0]}:eol:{type(res[1]).__name__}:{inp}:text-ends-in-{last}',
+                                  'a construct that looks at line ends raises a foreign exception / hangs on a text with unusual line ends',
+                                  {'oracle': 'TatSu errors only', 'case': {'grammar': gtext, 'text': text_, 'input': inp}, 'outcome': res[0],
+                                   'exception': repr(res[1])[:200]})
+
+
 # names: every identifier position of the grammar language (rule names in definitions, calls, includes, bases and start=; element labels; rule
 # parameters; keywords; the grammar's name) filled with names of every lexical shape: underscores only ('_', '__': the PEG.js blank-space
 # idiom), leading / trailing underscores, upper / title / mixed case (token rules), digits, characters outside ASCII incl. title-case and
@@ -1601,6 +1643,7 @@ def main():
             vlib.run_sharded(chk, shard_shapes, 14, extra=('scale', 9))
             vlib.run_sharded(chk, shard_shapes, 14, extra=('names', 30))
             vlib.run_sharded(chk, shard_scale_probes, len(SCALE_PROBES), procs=1)
+            vlib.run_sharded(chk, shard_eol, len(EOL_GRAMMARS))
             vlib.run_sharded(chk, shard_const_probes, len(CONST_PROBES))
             vlib.run_sharded(chk, shard_undefined, 1, procs=1)
         else:
@@ -1611,6 +1654,7 @@ def main():
             vlib.run_sharded(chk, shard_shapes, 28, extra=('scale', 40))
             vlib.run_sharded(chk, shard_shapes, 28, extra=('names', 200))
             vlib.run_sharded(chk, shard_scale_probes, len(SCALE_PROBES), procs=1)
+            vlib.run_sharded(chk, shard_eol, len(EOL_GRAMMARS))
             vlib.run_sharded(chk, shard_const_probes, len(CONST_PROBES))
             vlib.run_sharded(chk, shard_undefined, 1, procs=1)
         chk.obligation('M1: matchers vs Matchers.v (exhaustive small scope)', 'correspondence',
